@@ -150,6 +150,16 @@ impl Monitor for C17 {
     fn generate(&self, r: &mut Rng, _tier: Tier, _i: u64) -> SolverCase {
         let (name, cfg) = pick_family(r, FAMILIES);
         let (mut u, p) = gener::generate(r, &cfg);
+        // candidate lists in another order than the ids, and rank ties (the order of the list is
+        // the input order of filter_candidates / sort_candidates, a stable sort keeps it for ties)
+        if r.chance(1, 2) {
+            u = gener::permute_candidates(&u, r);
+        }
+        if r.chance(1, 3) {
+            for s in &mut u.solvs {
+                s.rank /= 2;
+            }
+        }
         make_expressible(&mut u);
         // the C++ driver's filter_candidates keeps the order of its input
         u.filter_order = 0;
